@@ -405,7 +405,10 @@ pub fn run_prog_case(case: &ProgCase, progress: bool) -> ProgOutcome {
         None => LimitOverride::default(),
     };
     verif::set_fault_plan(vec![(0, lim)]);
+    budget::install();
+    budget::arm(budget::DEFAULT_INSNS, u64::MAX);
     let r = catch_unwind(AssertUnwindSafe(|| re.captures_from_pos(&case.text, case.pos).map(|c| c.map(|c| groups_of(&c)))));
+    budget::disarm();
     verif::set_fault_plan(Vec::new());
     verif::set_observer(None);
     let runs = verif::take_run_stats();
